@@ -33,6 +33,7 @@ import (
 	"strings"
 	"testing"
 	"testing/synctest"
+	"time"
 
 	"github.com/mgtv-tech/redis-GunYu/config"
 	"github.com/mgtv-tech/redis-GunYu/pkg/common"
@@ -120,6 +121,32 @@ func TestVerifC08Child(t *testing.T) {
 			}
 		case "drdbc":
 			rdbW.Close()
+			close(sr.data)
+			sr, rdbW = nil, nil
+		case "drdbx":
+			// the chunk is RECEIVED (Read returns it) but the writer is stopped
+			// before it is written: write() and close() both need rdbW.mux, which the
+			// harness holds until Close() has marked the writer closed — whichever of
+			// the two then runs first, the chunk never reaches the file
+			rdbW.mux.Lock()
+			sr.data <- vfutil.UnHex(f[1])
+			w := rdbW
+			go w.Close()
+			for !w.wait.IsClosed() {
+				time.Sleep(100 * time.Microsecond)
+			}
+			time.Sleep(2 * time.Millisecond)
+			w.mux.Unlock()
+			<-w.wait.Context().Done()
+			close(sr.data)
+			sr, rdbW = nil, nil
+		case "drdbf":
+			// the chunk is received but its file write fails (descriptor closed
+			// underneath the writer — stands for EIO/ENOSPC)
+			rdbW.writer.Close()
+			w := rdbW
+			sr.data <- vfutil.UnHex(f[1])
+			<-w.wait.Context().Done()
 			close(sr.data)
 			sr, rdbW = nil, nil
 		case "daofw":
@@ -591,25 +618,48 @@ func (p *c08Parent) genScript(r *vfutil.Rand) (string, int64, int64) {
 			size := int64(1 + r.Intn(60))
 			ops = append(ops, fmt.Sprintf("drdbw %d %d", left, size))
 			b := c08Snap(p.salt, left, size)
-			complete := !r.Chance(1, 4)
-			at := int64(0)
-			for at < size {
+			// how the snapshot ends: 0 complete; 1 cut short and closed; 2 the LAST
+			// chunk is received but the writer is stopped before writing it; 3 the
+			// last chunk's file write fails; 4/5 the same for an earlier chunk
+			mode := 0
+			if r.Chance(1, 2) {
+				mode = 1 + r.Intn(5)
+			}
+			var chunks [][]byte
+			for at := int64(0); at < size; {
 				c := int64(1 + r.Intn(int(size-at)))
-				if !complete && at+c == size {
-					if c == 1 {
-						break
-					}
-					c--
-				}
-				ops = append(ops, "drdba "+vfutil.Hex(b[at:at+c]))
+				chunks = append(chunks, b[at:at+c])
 				at += c
 			}
-			if at == size {
+			done := false
+			for i, c := range chunks {
+				last := i == len(chunks)-1
+				switch {
+				case mode == 1 && last:
+					if len(c) > 1 {
+						ops = append(ops, "drdba "+vfutil.Hex(c[:len(c)-1]))
+					}
+					ops = append(ops, "drdbc")
+					done = true
+				case mode == 2 && last, mode == 4 && (i == len(chunks)/2):
+					ops = append(ops, "drdbx "+vfutil.Hex(c))
+					done = true
+				case mode == 3 && last, mode == 5 && (i == len(chunks)/2):
+					ops = append(ops, "drdbf "+vfutil.Hex(c))
+					done = true
+				default:
+					ops = append(ops, "drdba "+vfutil.Hex(c))
+				}
+				if done {
+					break
+				}
+			}
+			if !done {
 				p.snap[fmt.Sprintf("%d_%d.rdb", left, size)] = b
 				snapLeft = left
 			} else {
-				ops = append(ops, "drdbc")
 				snapLeft = -1
+				p.s.Count(fmt.Sprintf("snapshot_end_mode_%d", mode))
 			}
 			right = -1
 			aofOpen = false
@@ -649,8 +699,12 @@ func TestVerifC08(t *testing.T) {
 		return
 	}
 	p := &c08Parent{s: s, r: vfutil.NewRand(vfutil.Seed() + 8), tmp: t.TempDir()}
+	cur := ""
+	wd := vfWatchdog(s, time.Duration(vfutil.Scale(150, 1500))*time.Second, func() string { return cur })
+	defer wd.Stop()
 
 	runCase := func(script string, salt uint64, src string) {
+		cur = script
 		p.salt = salt
 		root := filepath.Join(p.tmp, fmt.Sprintf("w%d", p.n))
 		p.n++
